@@ -1,6 +1,6 @@
 #!/bin/sh
 # usage: tools/seedtest.sh <patch.diff> <ID> [tier]   - apply a seeded change to /repo, run the check, undo
-patch="$1"; id="$2"; tier="${3:-quick}"
+patch="$(readlink -f "$1")"; id="$2"; tier="${3:-quick}"
 git -C /repo apply "$patch" || { echo "APPLY FAILED"; exit 9; }
 cd /verif && ./check "$id" --tier "$tier" > /tmp/seedtest-$id.out 2>&1; rc=$?
 git -C /repo checkout -- . 
